@@ -5,8 +5,8 @@ import vlib
 
 LEVEL = "proof"
 HERE = os.path.dirname(os.path.abspath(__file__))
-MODELLED = ("ptr", "hex2bin", "atoi2", "unesc", "num", "xstr", "rem", "re")   # commands answered by the extracted model as well
-PURE_MODEL = ("rem", "re")        # the model of these has no ambient state at all (no errno parameter): asked once
+MODELLED = ("ptr", "hex2bin", "atoi2", "unesc", "num", "xstr", "rem", "re", "ini", "split", "uuid", "csv", "jsk", "jssk", "sde", "wstrtoll")   # commands answered by the extracted model as well
+PURE_MODEL = ("rem", "re", "ini", "split", "uuid", "csv", "jsk", "jssk", "sde")        # the model of these has no ambient state at all (no errno parameter): asked once
 ERANGE, EINVAL = 34, 22
 # The determinism oracle ("depends only on the input").  Every query is answered under each of these states of the world;
 # the harness line prefix is <errno>:<fill byte of caller-provided output storage and of the stack below the call>[:w]
@@ -240,7 +240,9 @@ def g_split(rng):
     h = b""
     for _ in range(rng.range(0, 7)):
         h += rng.weighted([(b"a", 4), (b"bc", 2), (b",", 3), (b";", 1), (b" ", 4), (b"\t", 1), (b"\xe9", 1)])
-    chars = rng.choice([b",", b",;", b"", b" ", b"a"])
+    chars = rng.choice([b",", b",;", b"", b" ", b"a", b"\xe9", b", "])
+    if rng.chance(1, 6):
+        h = rng.choice([b" ", b"  ", b",", b",,", b" ,", b", ", b" , ", b"a,", b",a", b" a ", b"\t\n", b"a, ,b", b"a ,", b"x" * 40 + b"," + b" " * 9])
     return "%s %s %d" % (hx(h), hx(chars), rng.below(2))
 
 
@@ -268,6 +270,10 @@ def g_ini(rng):
             l = b"n" * rng.choice([1, 126, 127, 128, 198, 199, 200, 201, 250]) + rng.choice([b"=v", b"", b":"])
         elif k == 4:
             l = b"k=" + b"v" * rng.choice([195, 196, 197, 198, 199, 200, 250, 401])
+        elif k == 6:
+            l = rng.choice([b"!a=1", b"a=!1", b"a = !", b"[s]", b" !cont", b"[" + b"s" * rng.choice([125, 126, 127, 128, 129]) + b"]",
+                            b"n" * rng.choice([125, 126, 127, 128]) + b"=v", b"k=v\t;c", b"k=v;c ;d", b"[a;b] ;c", b"[a ;b]", b"k\t:\tv", b"\xef\xbb\xbf[s]",
+                            b"\xef\xbb\xbf", b"\xef\xbb\xbf k=v", b"k=" + b" " * 190 + b"v", b" " * rng.choice([197, 198, 199, 200]) + b"k=v"])
         elif k == 5:
             l = rng.choice([b"novalue", b"=", b":", b"= v", b"a=b=c", b"a:b ;c", b"a=b;c", b"\xef\xbb\xbfk=v", b"\xef\xbb", b"k = \xff"])
         else:
@@ -275,6 +281,71 @@ def g_ini(rng):
                 rng.choice([b"val", b"", b" v v ", b"1 ; c", b"\"q\""]) + rng.choice([b"", b" ", b"\r"])
         out += l + rng.choice([b"\n", b"\n", b"\r\n", b""])
     return mutate(rng, out) if rng.chance(1, 6) else out
+
+
+UUID0 = b"0123abcd-89EF-4a5b-8c7d-0123456789ab"
+
+
+def g_uuid(rng):
+    u = bytearray(UUID0)
+    for i in range(len(u)):
+        if u[i] != 45 and rng.chance(1, 3):
+            u[i] = rng.choice(b"0123456789abcdefghijklmnopqrstuvwxyzABCDEFGHIJKLMNOPQRSTUVWXYZ")
+    u = bytes(u)
+    k = rng.below(10)
+    pos = rng.choice([0, 7, 8, 9, 12, 13, 14, 17, 18, 19, 22, 23, 24, 34, 35])
+    if k == 0:
+        u = u[:pos] + bytes([rng.choice([45, 47, 58, 64, 91, 96, 123, 0x80, 0xff, 32, 1])]) + u[pos + 1:]    # neighbours of the classes
+    elif k == 1:
+        u = u[:rng.choice([0, 1, 8, 9, 35])]                       # too short: every index the checks would touch is beyond the terminator
+    elif k == 2:
+        u = u + rng.choice([b"0", b"-", b" ", UUID0])              # too long
+    elif k == 3:
+        u = u[:pos] + u[pos + 1:] + b"0"                           # right length, a dash out of place
+    elif k == 4:
+        u = u.replace(b"-", rng.choice([b"_", b"-", b"a"]), rng.range(1, 4))
+    return u
+
+
+def g_csv(rng):
+    """<len of the caller's line buffer> <columns>: lengths at the validity checks (sizeof(struct iwcsv) + 2, multiples of
+    8) and contents that fill the data area to within a byte (every WW guard)"""
+    ln = rng.choice([0, 8, 32, 33, 34, 40, 41, 48, 56, 64, 72, 128, 512]) if rng.chance(5, 6) else rng.below(200)
+    room = max(ln - 33, 0)
+    cols = []
+    for _ in range(rng.weighted([(0, 1), (1, 3), (2, 3), (3, 2), (6, 1)])):
+        k = rng.below(8)
+        if k == 0:
+            c = b""
+        elif k == 1:
+            c = rng.choice([b'"', b'""', b'a"b', b'",', b' "'])
+        elif k == 2:
+            c = rng.choice([b",", b" ", b"\t", b"\n", b"\r", b"a b", b"a,b"])
+        elif k == 3:
+            c = b"x" * max(0, room + rng.choice([-4, -3, -2, -1, 0, 1]))
+        elif k == 4:
+            c = (b'"' * max(0, room // 2 + rng.choice([-2, -1, 0, 1])))
+        elif k == 5:
+            c = rng.bytes(rng.range(1, 4))
+        else:
+            c = rng.choice([b"abc", b"1", b"-12.5", b"\xe9\xff"])
+        cols.append(c)
+    return " ".join([str(ln)] + [hx(c) for c in cols])
+
+
+SDE = [b"1e", b"1e+", b"1e-", b".e1", b"1.e5", b"e5", b"-.5", b".5", b".", b"-", b"+", b"-.", b"1e0005", b"1e00", b"1e0]", b"0x10", b" \t1", b"1e-308",
+       b"2.2250738585072011e-308", b"1.e", b"1.5e+x", b".e", b"-.e5", b"1..2", b"1e5e5", b"\x0b\x0c 7", b"00", b"1e+00x", b"5.", b"5.x"]
+
+
+def g_sde(rng):
+    return rng.choice(SDE) + rng.choice([b"", b"", b"x", b",", b"0"]) if rng.chance(1, 2) else g_numstr(rng).replace(b"\x00", b"")
+
+
+def g_wstrtoll(rng):
+    if rng.chance(1, 2):
+        return rng.choice([b"123", b" 12", b"12 ", b"", b"+5", b"-0", b"0x10", b"12a", b"-", b"9223372036854775807", b"9223372036854775808",
+                           b"-9223372036854775808", b"-9223372036854775809", b"99999999999999999999", b"\t\n7", b"1.5", b"007"])
+    return g_numstr(rng).replace(b"\x00", b"")
 
 
 def g_regex(rng, depth=0):
@@ -440,7 +511,22 @@ def sweep(rng, full):
             L.append("ini " + hx(b"k" + B + b"=v" + B + b"\n[s" + B + b"]\n" + B + b"x=1"))
             L.append("split %s %s 1" % (hx(b"a" + B + b"b " + B), hx(B)))
             L.append("replace %s %s %s" % (hx(b"a" + B + b"b"), hx(B), hx(b"<" + B + b">")))
+            L.append("jsk " + hx(b'["a",' + B + b"]"))
+            L.append("jsk " + hx(b'{"k' + B + b'":' + B + b"}"))
+            L.append("jsk " + hx(b'"\\' + B + b'"'))
+            L.append("jsk " + hx(b"-" + B))
+            L.append("jssk " + hx(b"{" + B + b":1," + B + b"a" + B + b":'" + B + b"'}"))
+            L.append("sde " + hx(B + b"1"))
+            L.append("sde " + hx(b"1e" + B))
+            L.append("sde " + hx(b"1." + B + b"e" + B))
+            L.append("uuid " + hx(B + UUID0[1:]))
+            L.append("uuid " + hx(UUID0[:8] + B + UUID0[9:]))
+            L.append("uuid " + hx(UUID0[:35] + B))
+            L.append("csv 48 %s" % hx(B + b"a"))
+            if FACTS.get("strto_clears") or os.environ.get("VERIF_SAFETY_OPEN"):
+                L.append("wstrtoll " + hx(b"1" + B))
         # length delimited entry points take every byte, 0 included
+        L.append("csv 40 %s %s" % (hx(B), hx(B)))
         L.append("atoi2 " + hx(b"1" + B + b"2"))
         L.append("atoi2 " + hx(B))
         L.append("afcmp %s %s" % (hx(b"1" + B), hx(b"1.0")))
@@ -458,6 +544,27 @@ def sweep(rng, full):
         for n in (2 * k, 2 * k + 2, 2 * k + 4, 64, 66, 200):
             L.append("rem %s %s %d" % (hx(b"^" + b"(a)" * k + b"b"), hx(b"a" * k + b"b"), n))
         L.append("rem %s %s %d" % (hx(b"|".join(b"(%c)" % (97 + i % 26) for i in range(max(k, 1)))), hx(b"z"), 2 * k + 2))
+    # JSON nesting at the limit: arrays, objects, mixed; closed, unclosed, one level too deep
+    # (the list machine needs ~1.5 s for a 1000 level object document: the quick tier takes those at 1000 and 1001 only)
+    for d in (998, 999, 1000, 1001, 1002):
+        docs = [b"[" * d + b"]" * d, b"[" * d, b'[{"a":' * (d // 2) + b"0" + b"}]" * (d // 2)]
+        if full or d in (1000, 1001):
+            docs.append(b'{"a":' * d + b"1" + b"}" * d)
+        if full:
+            docs.append(b'{"a":' * d)
+        for doc in docs:
+            L.append("jsk " + hx(doc))
+        L.append("jssk " + hx(b"{a:" * d + b"1" + b"}" * d))
+    # csv: every length of the caller's buffer around the two validity checks, a column that exactly fills the data area
+    for ln in list(range(24, 50)) + [56, 64]:
+        L.append("csv %d %s" % (ln, hx(b"x" * max(ln - 36, 0))))
+        L.append("csv %d %s %s" % (ln, hx(b"x" * max(ln - 37, 0)), hx(b"")))
+    # ini: line, section and name lengths around the three fixed buffers
+    for n in (125, 126, 127, 128, 198, 199, 200, 201, 397, 398, 399):
+        L.append("ini " + hx(b"[" + b"s" * n + b"]\nk=v\n"))
+        L.append("ini " + hx(b"n" * n + b"=v\n c\n"))
+        L.append("ini " + hx(b"k=" + b"v" * n + b"\n"))
+        L.append("ini " + hx(b" " * n + b"k=v\n"))
     for n in (1, 10, 100, 300, 390, 400, 1021, 1022, 1023, 1024):
         L.append("re %s %s" % (hx(b"a|" * n + b"b"), hx(b"b")))
         L.append("re %s %s" % (hx(b"|".join([b"ab"] * n)), hx(b"ab")))
@@ -564,10 +671,18 @@ def gen(rng, n):
         if rng.chance(1, 3):
             j = mutate(rng, j)
         L.append("json " + hx(j))
+        L.append("jsk " + hx(j.replace(b"\x00", b"")))
         js = g_js(rng)
         if rng.chance(1, 3):
             js = mutate(rng, js)
         L.append("js " + hx(js))
+        L.append("jssk " + hx(js.replace(b"\x00", b"")))
+        L.append("jsk " + hx(b"[" + g_jsonnum(rng) + rng.choice([b"]", b",1]", b"", b" ]", b"e]"])))
+        L.append("sde " + hx(g_sde(rng)))
+        L.append("uuid " + hx(g_uuid(rng)))
+        L.append("csv " + g_csv(rng))
+        if FACTS.get("strto_clears") or os.environ.get("VERIF_SAFETY_OPEN"):
+            L.append("wstrtoll " + hx(g_wstrtoll(rng)))
         L.append("patch %s %s" % (hx(rng.choice(DOCS)), hx(g_patch(rng))))
         mp = g_json(rng) if rng.chance(1, 2) else rng.choice([b'{"a":null}', b'{"a":{"b":1}}', b'{"c":{"d":null,"z":[1]}}', b"[1]", b"null", b'{"b":{"0":1}}'])
         L.append("merge %s %s" % (hx(rng.choice(DOCS)), hx(mp)))
@@ -585,6 +700,8 @@ def gen(rng, n):
         L.append("re %s %s" % (hx(g_regex_big(rng)), hx(rng.choice([b"", b"a", b"a" * 40, b"ab" * 20]))))
         L.append("json " + hx(g_nest(rng)))
         L.append("js " + hx(g_nest(rng)))
+        nd = g_nest(rng)
+        L.append(("jssk " + hx(nd.replace(b'"a"', b"a"))) if nd.startswith(b'{"a"') and len(nd) > 2000 else ("jsk " + hx(nd)))
     return L
 
 
@@ -739,10 +856,24 @@ def load_corpus():
     return out
 
 
+FACTS = {}
+
+
+def read_facts():
+    """variant flags of the current tree (T1, written by probe_safety_txt.c) that decide which queries are generated"""
+    FACTS.clear()
+    try:
+        txt = open(os.path.join(vlib.COQ, "Gen", "Facts.v")).read()
+        FACTS["strto_clears"] = "fact_strto_clears_errno : bool := true" in txt
+    except OSError:
+        pass
+
+
 def check(run):
     HUNG.clear(); HUNG_N.clear()
     rng = run.rng
     proofs_ok = run.proofs()
+    read_facts()
     asan = vlib.build_harness("h_safety", "asan")
     model = vlib.build_model("safety")
     n = 300 if run.tier == "quick" else 40000
@@ -848,6 +979,8 @@ def check(run):
     def agrees(m, a, ks, other):
         if m == "BIG":                   # regex program too large for the list machine: not compared
             return True
+        if m == "?":                     # JSON number too close to the limits of the double range: iwstrtod's ERANGE verdict is
+            return not ks                #   floating point arithmetic the index-level model takes as a parameter
         if m.startswith("OOB"):
             return any(k.startswith("asan:") for k in ks)
         if m == "UNINIT":
